@@ -19,6 +19,7 @@ type Engine struct {
 	prog              *Program
 	tt                *TypeTable
 	addrTakenCache    map[*ast.FuncDecl]map[types.Object]bool
+	fieldAddrCache    map[*ast.FuncDecl]map[types.Object][]string
 	baseSorts         map[string]string
 	strictAppendFrame bool
 	unroll            int
@@ -308,13 +309,32 @@ func (e *Engine) axiomAsserts(c *FnCtx) []string {
 func (e *Engine) smtFile(c *FnCtx, o *Obl, negate bool) string {
 	var b strings.Builder
 	b.WriteString(prelude)
-	for _, d := range e.tt.dtDecls {
+	axioms := e.axiomAsserts(c) // may declare more symbols: evaluate before the declarations are written
+	// only the datatypes this obligation mentions (directly or through another included datatype): the type table
+	// is shared by all functions of a run and can hold hundreds of struct sorts
+	var body strings.Builder
+	for _, d := range c.decls {
+		body.WriteString(d)
+	}
+	for _, a := range axioms {
+		body.WriteString(a)
+	}
+	for _, h := range o.Hyps {
+		body.WriteString(h.s)
+	}
+	body.WriteString(o.Goal)
+	for _, d := range neededDatatypes(e.tt.dtDecls, body.String()) {
 		b.WriteString(d + "\n")
 	}
 	for _, a := range e.tt.tidAxioms() {
 		b.WriteString(a + "\n")
 	}
-	axioms := e.axiomAsserts(c) // may declare more symbols: evaluate before the declarations are written
+	if c.usesReflect {
+		b.WriteString(reflectPrelude)
+		for _, a := range e.tt.reflectTidAxioms() {
+			b.WriteString(a + "\n")
+		}
+	}
 	for _, d := range c.decls {
 		b.WriteString(d + "\n")
 	}
@@ -391,6 +411,9 @@ func runSolverCtx(parent context.Context, name, file string, timeoutS int) solve
 		cmd = exec.CommandContext(ctx, "z3-new", T, "smt.random_seed=7", "sat.random_seed=7", "smt.arith.solver=6", file)
 	case "cvc5":
 		cmd = exec.CommandContext(ctx, "cvc5", "--strings-exp", fmt.Sprintf("--tlimit=%d", timeoutS*1000), file)
+	case "cvc5-enum":
+		// enumerative instantiation: decides some forall-exists goals over datatype-keyed arrays at once where E-matching loops
+		cmd = exec.CommandContext(ctx, "cvc5", "--strings-exp", "--enum-inst", fmt.Sprintf("--tlimit=%d", timeoutS*1000), file)
 	}
 	t0 := time.Now()
 	out, _ := cmd.CombinedOutput()
@@ -491,7 +514,7 @@ func (e *Engine) solveFile(o *Obl, file string) {
 	}
 	if e.tier == "thorough" && !vac {
 		var wg sync.WaitGroup
-		names := []string{"z3-new", "z3", "cvc5", "z3-new-a2", "z3-new-eager"}
+		names := []string{"z3-new", "z3", "cvc5", "z3-new-a2", "z3-new-eager", "cvc5-enum"}
 		rs := make([]solverRes, len(names))
 		for i, s := range names {
 			wg.Add(1)
@@ -529,7 +552,7 @@ func (e *Engine) solveFile(o *Obl, file string) {
 		finish("discharged", "", "undecided (z3-new:"+r.status+")")
 		return
 	}
-	names := []string{"z3-new", "z3", "cvc5", "z3-new-a2", "z3-new-eager", "z3-new-em"}
+	names := []string{"z3-new", "z3", "cvc5", "z3-new-a2", "z3-new-eager", "z3-new-em", "cvc5-enum"}
 	ch := make(chan solverRes, len(names))
 	ctx, cancel := context.WithCancel(context.Background())
 	defer cancel()
